@@ -51,6 +51,11 @@ def generate(rng, tier, index):
     if rng.random() < 0.15:
         return sessiongen.gen_session(rng, ID, tier)
     pkts = []
+    # half of the plans: one session - every packet under the same AES/HMAC key (and IV)
+    shared = None
+    if rng.random() < 0.5:
+        shared = (hx(bytes(rng.getrandbits(8) for _ in range(16))), hx(bytes(rng.getrandbits(8) for _ in range(16))),
+                  None if rng.random() < 0.5 else hx(bytes(rng.getrandbits(8) for _ in range(16))))
     for _ in range(rng.randint(6, 14)):
         n = rng.choice([rng.randint(0, 80), rng.randint(0, 80), 16 * rng.randint(0, 4) + rng.randint(0, 15), 0, 16, 15, 17])
         pkts.append({"pt": hx(bytes(rng.getrandbits(8) for _ in range(n))),
@@ -58,6 +63,8 @@ def generate(rng, tier, index):
                      "hmac": hx(bytes(rng.getrandbits(8) for _ in range(16))),
                      "iv": None if rng.random() < 0.5 else hx(bytes(rng.getrandbits(8) for _ in range(16))),
                      "wrong_keys": [hx(bytes(rng.getrandbits(8) for _ in range(16))) for _ in range(8)]})
+        if shared:
+            pkts[-1]["aes"], pkts[-1]["hmac"], pkts[-1]["iv"] = shared
     if rng.random() < 0.3:
         # one large packet per plan at a boundary length (powers of two and their neighbours, multiples of 4 KiB / 64 KiB):
         # its plaintext is described by (seed, length), its fault space is sampled, not enumerated
